@@ -1,10 +1,14 @@
 (** ObjStm/Run.v — harness entry point for the object-stream model. *)
-From PdfV Require Import Base.Prelude Gen.Generated Lex.Lexer Syn.Prim Syn.Parser Syn.Canon ObjStm.Model.
+From PdfV Require Import Base.Prelude Gen.Generated Lex.Lexer Syn.Prim Syn.Parser Syn.Canon Codec.Model ObjStm.Model.
 
 Definition field (fs : list bytes) (i : nat) : bytes := nth i fs [].
 
-(* objstm: first n index payload -> canon of the member *)
+(* objstm: first n index data [filter] -> canon of the member.  filter = "hex" / "a85": [data] is the object stream's raw
+   (encoded) content and the model decodes it itself (Codec.Model); otherwise [data] is the decoded payload *)
 Definition run_objstm (fs : list bytes) : res (list bytes) :=
-  let data := field fs 3 in
+  let flt := field fs 4 in
+  do data <- (if bytes_eqb flt [104; 101; 120] then decode_hex (field fs 3)
+              else if bytes_eqb flt [97; 56; 53] then decode_85 (field fs 3)
+              else Ok (field fs 3));
   do v <- resolve_member no_resolve F_ANY (N_of_dec (field fs 0)) (N_of_dec (field fs 1)) data (N_of_dec (field fs 2));
   Ok [canon_in data v].
